@@ -1265,6 +1265,7 @@ fn gen_c10(tier: &str, r: &Rng, o: &mut Out<'_>) {
         let reps = 1 + r.below(if i % 10 == 0 { 50 } else { 6 });
         let style = i % 4;
         let mut straddle = false;
+        let mut foreign = false;
         if style == 1 {
             // repetitions packed back to back (section tails in the pointer bytes of the next start)
             let min_j = if i % 8 == 1 { 8 } else { straddle = true; 1 };
@@ -1282,6 +1283,18 @@ fn gen_c10(tier: &str, r: &Rng, o: &mut Out<'_>) {
                         let mut f = vec![0x80 + r.below(8) as u8, 0xb0 | (sl >> 8) as u8, sl as u8, r.byte(), r.byte(), 0xc1 | ((r.byte() & 31) << 1), 0, 0];
                         f.extend(r.bytes(sl - 5));
                         list.push(f);
+                    }
+                    if r.chance(1, 3) {
+                        // an in-limit private section (other table id, own version, section syntax),
+                        // CRC valid or not: the de-duplication layer sees its version (DESIGN 8.1b)
+                        let bl = r.below(40) as usize;
+                        let l = 5 + bl + 4;
+                        let mut f = vec![0x80 + r.below(0x40) as u8, 0xb0 | (l >> 8) as u8, l as u8, r.byte(), r.byte(), 0xc1 | ((r.byte() & 31) << 1), 0, 0];
+                        f.extend(r.bytes(bl));
+                        let mut f = with_crc(f);
+                        if r.chance(1, 3) { let k = f.len() - 1; f[k] ^= 0x40; }
+                        list.push(f);
+                        foreign = true;
                     }
                 }
                 qs.push(m.packed(pid, &list, 8));
@@ -1311,7 +1324,9 @@ fn gen_c10(tier: &str, r: &Rng, o: &mut Out<'_>) {
             all.extend(m.section(p2.pmt_pid, &s2, &plan_for(r, &s2)));
             let s1 = pmt_of(&progs[0]); all.extend(m.section(p2.pmt_pid, &s1, &plan_for(r, &s1)));
         }
-        emit(o, !straddle, "b0t0", &rand_pushes(r, &all));
+        // outside the hypotheses of the C10 theorems (header-straddling starts, foreign tables,
+        // multi-section tables): correspondence cases, not decisive ones
+        emit(o, !(straddle || foreign || style == 3), "b0t0", &rand_pushes(r, &all));
     }
     mixed_scenarios(tier, r, o, "C10");
     o.meta("plans", "tables repeated 1..50x (single- and multi-packet) interleaved with PES packets; v->w->v");
@@ -1588,6 +1603,55 @@ fn gen_c05(tier: &str, r: &Rng, o: &mut Out<'_>) {
     for i in 0..n {
         let all = c05_history(r, i);
         emit(o, true, "b0t0", &rand_pushes(r, &all));
+    }
+    // legal shapes OUTSIDE the routing specification's vocabulary (DESIGN 8.1b): two programs on one
+    // PMT PID, next-tables (current_next_indicator = 0), two-section PATs, duplicated packets.
+    // Correspondence cases only: the model mirrors the code on them.
+    let nb = if tier == "thorough" { 6_000 } else { 240 };
+    for i in 0..nb {
+        let mut m = Mux::new(r);
+        let mut used = vec![0u16, 0x1fff];
+        let mut progs = rand_progs(r, 2, 3, &mut used);
+        let mut all = vec![];
+        let recrc = |s: &Vec<u8>, f: &dyn Fn(&mut Vec<u8>)| { let mut b = s[..s.len() - 4].to_vec(); f(&mut b); with_crc(b) };
+        match i % 4 {
+            0 => {
+                let shared = progs[0].pmt_pid;
+                progs[1].pmt_pid = shared;
+                if r.chance(1, 2) { progs[1].version = progs[0].version; }
+                let pat = pat_section(7, r.byte() & 31, &pat_of(&progs, None));
+                all.extend(m.section(0, &pat, &plan_for(r, &pat)));
+                for _ in 0..(1 + r.below(3)) { for p in progs.iter() { let s = pmt_of(p); all.extend(m.section(shared, &s, &plan_for(r, &s))); } }
+            }
+            1 => {
+                let pat = pat_section(7, r.byte() & 31, &pat_of(&progs, None));
+                all.extend(m.section(0, &pat, &plan_for(r, &pat)));
+                for p in progs.iter() { let s = pmt_of(p); all.extend(m.section(p.pmt_pid, &s, &plan_for(r, &s))); }
+                // a "next" version of the first program's PMT and of the PAT
+                let mut p2 = progs[0].clone(); p2.version = (p2.version + 1) & 31; p2.streams.pop();
+                let s2 = recrc(&pmt_of(&p2), &|b| b[5] &= 0xfe);
+                all.extend(m.section(p2.pmt_pid, &s2, &plan_for(r, &s2)));
+                let pat2 = recrc(&pat_section(7, r.byte() & 31, &pat_of(&progs[..1], None)), &|b| b[5] &= 0xfe);
+                all.extend(m.section(0, &pat2, &plan_for(r, &pat2)));
+            }
+            2 => {
+                let ver = r.byte() & 31;
+                let a = recrc(&pat_section(7, ver, &pat_of(&progs[..1], None)), &|b| { b[6] = 0; b[7] = 1; });
+                let b2 = recrc(&pat_section(7, ver, &pat_of(&progs[1..], None)), &|b| { b[6] = 1; b[7] = 1; });
+                for _ in 0..(1 + r.below(2)) { all.extend(m.section(0, &a, &plan_for(r, &a))); all.extend(m.section(0, &b2, &plan_for(r, &b2))); }
+                for p in progs.iter() { let s = pmt_of(p); all.extend(m.section(p.pmt_pid, &s, &plan_for(r, &s))); }
+            }
+            _ => {
+                let pat = pat_section(7, r.byte() & 31, &pat_of(&progs, None));
+                all.extend(m.section(0, &pat, &plan_for(r, &pat)));
+                for p in progs.iter_mut() { for _ in 0..12 { p.prog_desc.extend(rand_desc(r)); } }
+                for p in progs.iter() { let s = pmt_of(p); let pk = m.section(p.pmt_pid, &s, &plan_for(r, &s));
+                    for (k, q) in pk.iter().enumerate() { all.push(q.clone()); if r.chance(1, 3) || k == 0 && r.chance(1, 2) { all.push(q.clone()); } } }
+            }
+        }
+        let pp: Vec<u16> = progs.iter().flat_map(|p| p.streams.iter().map(|s| s.1).chain(std::iter::once(p.pmt_pid))).collect();
+        all.extend(probes(&mut m, &pp));
+        emit(o, false, "b0t0", &rand_pushes(r, &all));
     }
     mixed_scenarios(tier, r, o, "C05");
     o.meta("plans", "histories of PAT/PMT versions: streams added/removed/re-typed/reordered, programs added/dropped, NIT toggled, PMT PID moves; probe packets after every table");
